@@ -129,7 +129,7 @@ verus_unit("coeffv", "coeffv", ["C04"], [
     "Air::get_deep_composition_coefficients (the same for trace columns, then composition columns, then the Lagrange coefficient)"])
 
 
-verus_unit("oodv", "oodv", ["C03", "C06", "C12", "C04", "C05"], [
+verus_unit("oodv", "oodv", ["C03", "C06", "C12", "C04", "C05", "C15"], [
     "TraceOodFrame::to_trace_states / TraceOodFrame::hash (what the coin absorbs for the out-of-domain trace frame: the hash of the current / next evaluations interleaved per column followed by the Lagrange kernel frame values, every width)",
     "OodFrame::parse (every main / auxiliary width up to 255, every number of evaluations, every Lagrange frame size, EVERY content of the three byte vectors, abstract element decoder: Ok exactly when each section is canonical - Lagrange section = size byte k + exactly k element encodings, k > 0 only with an auxiliary segment; trace-state section = the byte 2 + exactly 2 * (main + aux') encodings; evaluation section = exactly num_evaluations encodings; nothing may follow in any section - and then the rows are the de-interleaved decoded elements, exactly main + aux' wide; no overflow / underflow / out-of-range index on any input)",
     "TraceOodFrame::new",
@@ -143,7 +143,8 @@ verus_unit("oodv", "oodv", ["C03", "C06", "C12", "C04", "C05"], [
     "OodFrame::set_trace_states (every frame: the trace-state section is the byte 2 followed by the encodings of the current / next evaluations interleaved per column, the Lagrange section the number of Lagrange kernel values followed by their encodings, and the returned digest - what the prover channel reseeds the coin with - is hash_elements of exactly those values in that order, i.e. TraceOodFrame::hash; other sections untouched)",
     "OodFrame::set_constraint_evaluations (stores exactly the encodings of the evaluations; other sections untouched)",
     "Queries::new (every non-empty list of equally long rows: the value bytes are the encodings of the rows in order, the path bytes are serialize_nodes of the batch proof; the three assertions are the documented pre-conditions)",
-    "ProverChannel::commit_trace / commit_constraints / send_ood_trace_states / send_ood_constraint_evaluations (every message is stored in the proof and absorbed by the coin once, as exactly the stored value: a root as itself, an out-of-domain frame as hash_elements of the stored values; nothing else changes; the coin is a ghost log, Commitments::add a named contract)"])
+    "ProverChannel::commit_trace / commit_constraints / send_ood_trace_states / send_ood_constraint_evaluations (every message is stored in the proof and absorbed by the coin once, as exactly the stored value: a root as itself, an out-of-domain frame as hash_elements of the stored values; nothing else changes; the coin is a ghost log, Commitments::add a named contract)",
+    "FriProof::new (the remainder section holds the encodings of ALL remainder coefficients in order, the layers are stored unchanged, the partition count as its binary logarithm; the four assertions are the documented pre-conditions)"])
 
 
 verus_unit("proofserdev", "proofserdev", ["C12", "C03"], [
